@@ -1,6 +1,7 @@
 package main
 
 import (
+	"bytes"
 	goecdh "crypto/ecdh"
 	"fmt"
 	"math/big"
@@ -8,6 +9,7 @@ import (
 	"strings"
 
 	"github.com/ldclabs/cose/iana"
+	"github.com/ldclabs/cose/key"
 	"github.com/ldclabs/cose/key/ecdh"
 )
 
@@ -20,7 +22,29 @@ func init() {
 func execEcdh(op string, a []string) string {
 	switch op {
 	case "ecdh.topublic":
-		return keyDump(ecdh.ToPublicKey(keyFromToks(a)))
+		in := keyFromToks(a)
+		pub, err := ecdh.ToPublicKey(in)
+		if err == nil && !in.Has(iana.KeyParameterKid) && in.Has(iana.EC2KeyParameterD) {
+			// the library adds its default kid (a SHA3 digest of the public point, not modelled): checked here against
+			// key.SumKid over the returned point, then set aside
+			x, _ := pub.GetBytes(iana.EC2KeyParameterX)
+			data := x
+			if y, e := pub.GetBytes(iana.EC2KeyParameterY); e == nil && pub.Has(iana.EC2KeyParameterY) {
+				data = append(append([]byte{4}, x...), y...)
+			}
+			kid, _ := pub.GetBytes(iana.KeyParameterKid)
+			if !bytes.Equal(kid, key.SumKid(data)) {
+				return "DEFAULT-KID-DISAGREES " + hx(kid)
+			}
+			cp := key.Key{}
+			for k, v := range pub {
+				if k != iana.KeyParameterKid {
+					cp[k] = v
+				}
+			}
+			pub = cp
+		}
+		return keyDump(pub, err)
 	case "ecdh.compress":
 		return keyDump(ecdh.ToCompressedKey(keyFromToks(a)))
 	case "ecdh.derive":
@@ -119,11 +143,12 @@ func stripZ(b []byte) []byte {
 
 // form: 0 private, 1 private+public, 2 public uncompressed, 3 public stripped coords, 4 compressed, 5 compressed stripped x
 func (k *dhKey) tokens(r *rand.Rand, form int, extra []string) string {
-	kty := "int:2"
+	ktyN := int64(2)
 	if k.crv == 4 {
-		kty = "int:1"
+		ktyN = 1
 	}
-	parts := [][2]string{{"int:1", kty}, {"int:-1", intToken(r, int64(k.crv))}}
+	// kty and crv in the Go kinds a constructed, decoded or hand-written key holds them in
+	parts := [][2]string{{"int:1", intToken(r, ktyN)}, {"int:-1", intToken(r, int64(k.crv))}}
 	if form <= 1 {
 		parts = append(parts, [2]string{"int:-4", "b:" + hx(k.d)})
 	}
@@ -208,6 +233,23 @@ func genEcdhOps(r *rand.Rand, n int) []string {
 				bad.pubY = make([]byte, len(b.pubY))
 			}
 			remote = bad.tokens(r, form, kidA)
+		}
+		if i%7 == 0 { // key type and curve that do not belong together (EC2 with X25519, OKP with a NIST curve), private and public
+			mis := fmt.Sprintf("{ int:1 %s int:-1 %s int:-4 b:%s }", intToken(r, 2), intToken(r, 4), hx(randBytes(r, 32)))
+			if r.Intn(2) == 0 {
+				c2 := 1 + r.Intn(3)
+				k2 := genDhKey(r, c2)
+				mis = fmt.Sprintf("{ int:1 %s int:-1 %s int:-4 b:%s }", intToken(r, 1), intToken(r, int64(c2)), hx(k2.d))
+				if r.Intn(2) == 0 {
+					mis = fmt.Sprintf("{ int:1 %s int:-1 %s int:-2 b:%s }", intToken(r, 1), intToken(r, int64(c2)), hx(k2.pubX))
+				}
+			}
+			out = append(out, "ecdh.topublic "+mis, "ecdh.compress "+mis, fmt.Sprintf("ecdh.derive %s | %s | same", local, mis), fmt.Sprintf("ecdh.derive %s | %s | same", mis, remote))
+		}
+		if i%5 == 0 && crv != 4 { // a private key that embeds another key's public point: d decides
+			odd := dhKey{crv: crv, d: a.d, pubX: b.pubX, pubY: b.pubY}
+			ot := odd.tokens(r, 1, kidA)
+			out = append(out, "ecdh.topublic "+ot, "ecdh.compress "+ot, fmt.Sprintf("ecdh.derive %s | %s | same", ot, b.tokens(r, 2, kidA)))
 		}
 		after := "same"
 		if r.Intn(8) == 0 {
